@@ -66,18 +66,19 @@ MkMulti(s) ==
   IN [stages |-> Tup([i \in 1..n |-> IF s.clone THEN ShiftParams(sd(i), i - 1) ELSE sd(i)]),
       pcons |-> Couple(s.pat, n), pobj |-> ParentObj(s.pat, n), clone |-> s.clone,
       \* history variant (C12.h): after a first transcription the stage-1 parameter (if any) is set again and stage 1 gets one more constraint
-      reset |-> s.reset]
+      reset |-> s.reset, stagefirst |-> s.stagefirst]
 
 KindSeqs == {<<a>> : a \in KindIds} \cup {<<a, b>> : a \in KindIds, b \in KindIds}
             \cup (IF Thorough THEN {<<a, b, c>> : a \in {"A", "B"}, b \in KindIds, c \in {"C", "D"}} ELSE {<<"A", "B", "D">>, <<"B", "C", "A">>})
 Space == {s \in [kinds : KindSeqs, hz : {"num", "fT", "fb"}, pat : {"none", "chain", "time"}, clone : BOOLEAN, withInt : BOOLEAN,
-                 reset : BOOLEAN, seed : {Seed}] :
+                 reset : BOOLEAN, stagefirst : BOOLEAN, seed : {Seed}] :
             /\ (s.pat = "time" => s.hz = "fb")
+            /\ (s.stagefirst => ~s.reset /\ s.withInt)       \* the first transcribing call is stage.sample(...) on a sub-stage
             /\ (s.clone => \A i \in 1..Len(s.kinds) : s.kinds[i] = s.kinds[1])
             /\ (s.reset => KindOf(s.kinds[1]).rhs \in {"R2", "R3", "R4"} /\ ~s.clone)
             /\ (s.withInt => \A i \in 1..Len(s.kinds) : KindOf(s.kinds[i]).rhs # "R7")
             /\ (s.reset => KindOf(s.kinds[1]).rhs # "R7")}
-Code(s) == Len(s.kinds) + (IF s.clone THEN 3 ELSE 0) + (IF s.withInt THEN 1 ELSE 0) + (IF s.reset THEN 5 ELSE 0)
+Code(s) == (IF s.stagefirst THEN 2 ELSE 0) + Len(s.kinds) + (IF s.clone THEN 3 ELSE 0) + (IF s.withInt THEN 1 ELSE 0) + (IF s.reset THEN 5 ELSE 0)
            + (CASE s.hz = "num" -> 0 [] s.hz = "fT" -> 1 [] OTHER -> 2) + (CASE s.pat = "none" -> 0 [] s.pat = "chain" -> 7 [] OTHER -> 11)
            + (CASE s.kinds[1] = "A" -> 0 [] s.kinds[1] = "B" -> 1 [] s.kinds[1] = "C" -> 2 [] s.kinds[1] = "E" -> 4 [] OTHER -> 3)
 Init == sc \in {s \in Space : Code(s) % Parts = Part}
